@@ -6,7 +6,11 @@ from .lib.runner import Outcome, Failure
 PROP = "C15"
 PROPS_FILE = "Props/C15.v"
 MANIFEST = dict(
-    text="Coq theorems over the model of Submitter.expand_workflow_async / expand_workflow and NodeExecution "
+    text="PARTIAL w.r.t. warm caches. C15_full_statement (every submission, including a second one with rerun=True "
+         "over a cache that already holds results) is refuted on the model by C15_refuted_warm_rerun (finding F15, "
+         "known, reproduced on the fake and on the real cf worker: the stale result of a launched-but-not-started "
+         "job is taken for its completion); C15_partial covers every cold-cache submission. "
+         "Coq theorems over the model of Submitter.expand_workflow_async / expand_workflow and NodeExecution "
          "(Model/Sched.v), for EVERY oracle (completion order, multi-completions, which launched jobs are seen "
          "running at each poll), every max_concurrent, every set of failing jobs, every topologically listed "
          "graph: C15_safety (in the start/finish log every launch is preceded by the successful finish of every "
@@ -40,7 +44,8 @@ ASSUMPTIONS = ["theorems C15_safety ... speak about a run over a cache that hold
                "graphs are listed in an order where every predecessor comes earlier and node names are distinct "
                "(wf_graph; what DiGraph.sorting produces)",
                "fresh cache directory per run; split nodes are combined so that the job count of a node is static"]
-RULE = ("an observed run of a generated workflow (2-6 nodes, <=3 predecessors, nodes split 1-3 ways, <=10 jobs) under "
+RULE = ("(incl. forced re-runs with rerun=True over a warm cache: start/finish order and value generations of the second "
+        "run) an observed run of a generated workflow (2-6 nodes, <=3 predecessors, nodes split 1-3 ways, <=10 jobs) under "
         "a generated oracle / max_concurrent / failing set; distinct = different (workflow, k, failing set, observed "
         "start/finish log, visibility pattern); non-trivial = >=2 nodes, >=1 edge, >=3 jobs")
 
@@ -82,7 +87,7 @@ def classify(case, obs):
     scheduling pass (before any completion) is NOT in that class."""
     if case["mode"] == "rerun_cf":
         return "F15"
-    if case["mode"] != "rerun":
+    if case["mode"] not in ("rerun", "rerun_gen"):
         return None
     early = first_early_launch(case, obs)
     if early is not None:
@@ -97,12 +102,13 @@ def classify(case, obs):
 def rerun_cases(ctx, n_async, n_sync, n_cf):
     rng = ctx.rng
     out = [dict(nodes=[dict(id=0, preds=[], split=None), dict(id=1, preds=[0], split=None)], k=None, fail=[],
-                oracle=[], mode=m) for m in ("rerun", "rerun_sync")]        # the plain chain A -> B, both loops
+                oracle=[], mode=m) for m in ("rerun", "rerun_gen", "rerun_sync")]   # the plain chain A -> B
     for i in range(n_async + n_sync):
         nodes = fakes.gen_nodes(rng, nmin=2, nmax=5, maxjobs=8)
         nj = sum(fakes.njobs(n) for n in nodes)
         if i < n_async:
-            out.append(dict(nodes=nodes, k=fakes.gen_k(rng, nj), fail=[], oracle=fakes.gen_oracle(rng, nj), mode="rerun"))
+            out.append(dict(nodes=nodes, k=fakes.gen_k(rng, nj), fail=[], oracle=fakes.gen_oracle(rng, nj),
+                            mode="rerun" if i % 2 == 0 else "rerun_gen"))
         else:
             out.append(dict(nodes=nodes, k=None, fail=[], oracle=[], mode="rerun_sync"))
     for _ in range(n_cf):
@@ -114,9 +120,9 @@ def rerun_cases(ctx, n_async, n_sync, n_cf):
 
 
 def run(ctx):
-    extra = rerun_cases(ctx, ctx.budget(8, 120), ctx.budget(3, 30), ctx.budget(0, 2))
+    extra = rerun_cases(ctx, ctx.budget(6, 120), ctx.budget(2, 30), ctx.budget(0, 2))
     out, cases, obs, usable, bad = fakes.drive(
-        ctx, "c15", SPEC, ctx.budget(24, 300), ctx.budget(6, 50), ctx.budget(14, 768), RULE,
+        ctx, "c15", SPEC, ctx.budget(18, 300), ctx.budget(4, 50), ctx.budget(10, 768), RULE,
         "a job started before an upstream job succeeded / started twice / was never run", extra_cases=extra,
         classify=classify)
     # forced re-run over a warm cache: every value in the outputs must come from the second run
@@ -125,11 +131,11 @@ def run(ctx):
     reported = set()
     for i in usable:
         c, o = cases[i], obs[i]
-        if not c["mode"].startswith("rerun") or o.get("outcome") != "ok" or o.get("generations") == [2]:
+        if not c["mode"].startswith("rerun") or o.get("outcome") != "ok" or o.get("generations") in (None, [2]):
             continue
         f = classify(c, o)
         stale["F15" if f else "new"] += 1
-        if i in spec_bad and c["mode"] == "rerun":
+        if i in spec_bad and c["mode"] == "rerun_gen":
             continue                                    # already reported through the start/finish log
         if f in reported:
             continue
